@@ -9,7 +9,9 @@ calls of `urljoin` (a parameter `resolve` of the generated function) and of othe
 `x[i]` with an int index (hoisted into a monadic `PyOps.index`, IndexError as in Python; not under `and` / `or` / conditional
 expressions, whose laziness the hoisting would lose); `for i in range(e):` whose body only tests and returns / raises
 (`PyOps.forRange`, early exit on `return`), likewise `for x in xs:` over a parameter that is a list of strings (`PyOps.forEach`); `x[::-1]`; `P.search(x)` for a module constant `P = re.compile("[...]")` that is a
-plain character class, of whose match object only `is None` and `.start()` are used; functions returning `None` or a string.
+plain character class, of whose match object only `is None` and `.start()` are used; functions returning `None` or a string;
+dictionaries of strings (insertion-ordered lists of pairs): `d[k]` (KeyError as in Python), the find-first idiom
+`v = None; for k in d: if c: v = k; break` (`PyOps.findFirst`), `x.replace(a, b)`; `return a if c else b` read as an `if`.
 Every generated function returns `Except PyExc T`."""
 import ast
 
@@ -23,7 +25,7 @@ def lstr(s):
 
 
 NARROWS = {'optstr': 'str', 'optint': 'matchpos'}     # `x is None` tests narrow an optional to this type
-EXC = {'ValueError': 'PyExc.valueError', 'RuntimeError': 'PyExc.runtimeError', 'IndexError': 'PyExc.indexError'}
+EXC = {'ValueError': 'PyExc.valueError', 'RuntimeError': 'PyExc.runtimeError', 'IndexError': 'PyExc.indexError', 'KeyError': 'PyExc.keyError'}
 
 
 class TrS:
@@ -107,6 +109,13 @@ class TrS:
         if isinstance(n, ast.Subscript) and not isinstance(n.slice, ast.Slice):
             x, tx = self.expr(n.value)
             i, ti = self.expr(n.slice)
+            if tx == 'strdict' and ti == 'str':
+                if self.lazy_depth:
+                    raise Untranslatable("d[k] under a lazily evaluated operator")
+                self.fresh += 1
+                v = "d_%d" % self.fresh
+                self.hoist.append("let %s ← PyOps.dictGet %s %s" % (v, x, i))
+                return v, 'str'
             if tx == 'str' and ti == 'int':
                 if self.lazy_depth:
                     raise Untranslatable("x[i] under a lazily evaluated operator")
@@ -144,6 +153,8 @@ class TrS:
                         return "(PyOps.%s %s %s)" % (f.attr, x, args[0][0]), 'int'
                     if f.attr == 'strip' and not args:
                         return "(PyOps.strip %s)" % x, 'str'
+                    if f.attr == 'replace' and len(args) == 2 and args[0][1] == args[1][1] == 'str':
+                        return "(PyOps.replace %s %s %s)" % (x, args[0][0], args[1][0]), 'str'
             raise Untranslatable("call " + ast.dump(n)[:120])
         if isinstance(n, ast.Compare) and len(n.ops) == 1:
             l, op, r = n.left, n.ops[0], n.comparators[0]
@@ -190,6 +201,25 @@ class TrS:
             if isinstance(s, ast.If) and TrS.terminates(s.body) and TrS.terminates(s.orelse):
                 return True
         return False
+
+    @staticmethod
+    def find_first(s, tail):
+        """`v = None` followed by `for k in d: if c1: [if c2: ...] v = k; break`  ->  (v, k, d, [c1, c2, ...])"""
+        if not (isinstance(s, ast.Assign) and len(s.targets) == 1 and isinstance(s.targets[0], ast.Name) and isinstance(s.value, ast.Constant)
+                and s.value.value is None and tail and isinstance(tail[0], ast.For)):
+            return None
+        loop = tail[0]
+        if not isinstance(loop.target, ast.Name) or loop.orelse:
+            return None
+        var, key = s.targets[0].id, loop.target.id
+        conds, body = [], loop.body
+        while len(body) == 1 and isinstance(body[0], ast.If) and not body[0].orelse:
+            conds.append(body[0].test)
+            body = body[0].body
+        if len(body) == 2 and isinstance(body[0], ast.Assign) and len(body[0].targets) == 1 and isinstance(body[0].targets[0], ast.Name) \
+                and body[0].targets[0].id == var and isinstance(body[0].value, ast.Name) and body[0].value.id == key and isinstance(body[1], ast.Break):
+            return var, key, loop.iter, conds
+        return None
 
     @staticmethod
     def only_tests_and_exits(stmts):
@@ -245,6 +275,30 @@ class TrS:
                 return "pure none"
             raise Untranslatable("falls off the end without a value")
         s, tail = stmts[0], stmts[1:]
+        if isinstance(s, ast.Return) and isinstance(s.value, ast.IfExp):
+            # `return a if c else b` is `if c: return a` / `else: return b` (so that a None test narrows and x[i] / d[k] stay in their branch)
+            s = ast.If(test=s.value.test, body=[ast.Return(value=s.value.body)], orelse=[ast.Return(value=s.value.orelse)])
+        ff = self.find_first(s, tail)
+        if ff is not None:
+            var, key, dct, conds = ff
+            if in_loop:
+                raise Untranslatable("nested loop")
+            d_e, d_t = self.expr(dct)
+            if d_t != 'strdict':
+                raise Untranslatable("find-first loop over something else than a dictionary of strings")
+            old_k = self.env.get(key)
+            self.env[key] = 'str'
+            self.lazy_depth += 1
+            try:
+                cs = [self.boolean(c) for c in conds]
+            finally:
+                self.lazy_depth -= 1
+                if old_k is None:
+                    del self.env[key]
+                else:
+                    self.env[key] = old_k
+            self.env[var] = 'optstr'
+            return "let %s := PyOps.findFirst %s (fun %s => %s)\n  %s" % (var, d_e, key, " && ".join(cs) or "true", self.block(tail[1:], ret))
         if isinstance(s, ast.For):
             if in_loop:
                 raise Untranslatable("nested loop")
@@ -340,7 +394,7 @@ class TrS:
 
 
 LEAN_TY = {'str': 'List Char', 'int': 'Int', 'bool': 'Bool', 'optstr': 'Option (List Char)', 'optint': 'Option Int', 'char': 'Char', 'matchpos': 'Int',
-           'strlist': 'List (List Char)'}
+           'strlist': 'List (List Char)', 'strdict': 'List (List Char × List Char)'}
 
 
 def translate(out, report, assumptions, lean_name, fn, param_types, ret, consts, skip=('self',)):
